@@ -71,6 +71,17 @@ def gen(tier):
                 for v in (0, 1):
                     for cfg in (CONFIGS[0], CONFIGS[7]):
                         yield {"set": {kk: S[kk][v] for kk in sub}, "sp": dict(zip(al, choice)), "cfg": list(cfg)}
+    # header case and spacing: every setting under Capitalised / UPPER / spaced spellings of its column header
+    for kk in KEYS:
+        if "::" in kk:
+            continue
+        spell = {kk.capitalize(), kk.upper(), kk.replace("_", " "), kk.title(), kk.replace("_", " ").title()} - {kk}
+        for sp in sorted(spell):
+            for v in (0, 1):
+                for cfg in (CONFIGS[0], CONFIGS[7]):
+                    yield {"set": {kk: S[kk][v]}, "sp": {kk: sp}, "cfg": list(cfg)}
+                    if kk != "form_id":
+                        yield {"set": {kk: S[kk][v], "form_id": S["form_id"][v]}, "sp": {kk: sp}, "cfg": list(cfg)}
     # both id spellings present: form_id wins, with a warning
     for v in (0, 1):
         yield {"set": {"form_id": S["form_id"][v]}, "sp": {}, "cfg": [False, False, False], "both_ids": "idstring_loser"}
